@@ -549,17 +549,19 @@ def timer_summaries(ctx, rule="R06.2"):
     ok = v[0] == "call" and v[1].endswith("sleep_until") and v[2] and v[2][0][0] == "field" and v[2][0][2] == "until"
     ctx.require(ok, rule, "timer-to-sleep", "Timer::to_sleep sleeps until self.until", f.loc(f.line), detail=str(v)[:200])
     f = ctx.anchor_fn(rule, T + "::to_control")
-    v = thir.expr_value(thir.root(f))
-    ok = v[0] == "v" and v[2] == "ControlMessage" and v[3].get("done", ("",))[0] == "call" and v[3]["done"][1].endswith("Clone::clone")
-    ifs = thir.find(thir.root(f), "if")
-    shape = False
-    if len(ifs) == 1 and pathx.if_parts(ifs[0])[0] == "self.is_restart":
-        _, t_, e_ = pathx.if_parts(ifs[0])
-        tv, evv = thir.expr_value(t_), thir.expr_value(e_)
-        shape = tv[0] == "v" and tv[2] == "ContinueTryGracefulRestart" and evv[0] == "v" and evv[2] == "Stop"
+    # decision table over the syntactic paths of the body (locals read through, helpers spliced): is_restart -> control, with the timer's own flag
+    rows = set()
+    rt = thir.root(f)
+    with pathx.reading_through(rt):
+        for p_ in pathx.Enum().paths(rt):
+            conds = tuple(sorted({(e_[1], e_[2]) for e_ in p_.ev if e_[0] == "branch"}))
+            rows.add((conds, pathx.desc_on(p_, pathx.value_of(rt))))
+    want_rows = {((("self.is_restart", True),), "ControlMessage{control: ContinueTryGracefulRestart, done: Clone::clone(self.done)}"),
+                 ((("self.is_restart", False),), "ControlMessage{control: Stop, done: Clone::clone(self.done)}")}
+    ok = shape = rows == want_rows
     ctx.require(ok and shape, rule, "timer-to-control",
                 "Timer::to_control yields ContinueTryGracefulRestart for a restart timer and Stop otherwise, carrying the timer's own flag",
-                f.loc(f.line),
+                f.loc(f.line), detail=str(sorted(rows))[:400],
                 fail="the control injected at grace expiry is no longer Stop / ContinueTryGracefulRestart with the original flag")
 
 
